@@ -3,82 +3,59 @@
   that outlives the call.
 
   The store sites are EXTRACTED from the source on every run (`BexprGen.Effects.storeSites`,
-  `reachableFromEvaluate`, `appendOrigins`); this file holds the hand classification: for each
-  site the syntactic argument why the written memory is allocated by the very call that writes it.
-  A site that is not listed here is `shared`, which fails the tie `Ties/Effects.lean`.
+  `reachableFromEvaluate`, `appendOrigins`), each with a CLASS computed by the translator's
+  per-function freshness analysis (xlate/facts_effects.go, sections "freshness" and "store sites").
+  This file says which classes are call-local, and why; the ties `Ties/Effects.lean` and
+  `Ties/EffectsC13.lean` check that every site of an Evaluate-reachable function has such a class.
+  The source TEXT of a site is carried along for the reader (and to identify the one tolerated
+  shared site of C13); the ties do not compare it, so rewriting a statement without changing where
+  the written memory comes from does not break them.  A site the analysis does not recognise is
+  `shared`, which fails the ties.
 -/
 namespace Bexpr.Eval.Effects
 
-/-- (function, kind, source text) ↦ why the write is call-local -/
-def localSites : List ((String × String × String) × String) := [
-  (("Evaluator.Evaluate", "append", "append(opts, WithUnknownValue(*eval.unknownVal))"),
-    "opts is the slice literal built two lines above in the same call"),
-  (("Filter.Execute", "reflect-mutator", "reflect.Append(newSlice, item)"),
-    "newSlice comes from reflect.MakeSlice in this call"),
-  (("Filter.Execute", "reflect-mutator", "newMap.SetMapIndex(mapKey, item)"),
-    "newMap comes from reflect.MakeMap in this call"),
-  (("WithHookFn", "assign-field", "o.withHookFn = fn"),
-    "o points to the options struct local to getOpts (getDefaultOptions() per call)"),
-  (("WithTagName", "assign-field", "o.withTagName = tagName"), "same"),
-  (("WithUnknownValue", "assign-field", "o.withUnknown = &val"), "same; val is the closure's own copy"),
-  (("WithLocalVariable", "assign-field",
-      "o.withLocalVariables = append(o.withLocalVariables, localVariable{ name: name, path: path, value: value, })"),
-    "same; the slice field starts nil in getDefaultOptions, so append allocates"),
-  (("WithLocalVariable", "append",
-      "append(o.withLocalVariables, localVariable{ name: name, path: path, value: value, })"), "same"),
-  (("evaluateCollectionExpression", "append", "append(path, expression.Selector.Path...)"),
-    "path := make([]string, 0, …) in this iteration"),
-  (("evaluateCollectionExpression", "append", "append(path, key.Interface().(string))"), "same"),
-  (("evaluateCollectionExpression", "append",
-      "append(innerOpt, WithLocalVariable(expression.NameBinding.Value, path, nil))"),
-    "innerOpt := append([]Option(nil), opt...) — a fresh copy per iteration"),
-  (("evaluateCollectionExpression", "append",
-      "append(innerOpt, WithLocalVariable(expression.NameBinding.Default, nil, key.Interface()))"), "same"),
-  (("evaluateCollectionExpression", "append",
-      "append(innerOpt, WithLocalVariable(expression.NameBinding.Index, nil, key.Interface()))"), "same"),
-  (("evaluateCollectionExpression", "append", "append(pathValue, expression.Selector.Path...)"),
-    "pathValue := make([]string, 0, …) in this iteration"),
-  (("evaluateCollectionExpression", "append", "append(pathValue, fmt.Sprintf(\"%d\", i))"), "same"),
-  (("evaluateCollectionExpression", "append",
-      "append(innerOpt, WithLocalVariable(expression.NameBinding.Default, pathValue, nil))"), "innerOpt: fresh copy"),
-  (("evaluateCollectionExpression", "append",
-      "append(innerOpt, WithLocalVariable(expression.NameBinding.Value, pathValue, nil))"), "innerOpt: fresh copy"),
-  (("evaluateCollectionExpression", "append",
-      "append(innerOpt, WithLocalVariable(expression.NameBinding.Index, nil, i))"), "innerOpt: fresh copy"),
-  (("evaluateNotPresent", "assign-field", "ptr.Parts = ptr.Parts[0 : len(ptr.Parts)-1]"),
-    "ptr is a by-value parameter; re-slicing writes the local header only"),
-  (("getValue", "append", "append(prefix, path[1:]...)"),
-    "prefix := append([]string(nil), lv.path...) — a fresh copy")
-]
+/-- a store site: (function, kind, class, source text) -/
+abbrev Site := String × String × String × String
 
-/-- where every appended-to local slice of an Evaluate-reachable function comes from:
-    a fresh allocation, or a previous append to the same (already fresh) variable -/
-def freshOrigins : List (String × String × String) := [
-  ("Evaluator.Evaluate", "opts", "[]Option{ WithTagName(eval.tagName), WithHookFn(eval.valueTransformationHook), }"),
-  ("Evaluator.Evaluate", "opts", "append(opts, WithUnknownValue(*eval.unknownVal))"),
-  ("evaluateCollectionExpression", "innerOpt", "append([]Option(nil), opt...)"),
-  ("evaluateCollectionExpression", "path", "make([]string, 0, len(expression.Selector.Path)+1)"),
-  ("evaluateCollectionExpression", "path", "append(path, expression.Selector.Path...)"),
-  ("evaluateCollectionExpression", "path", "append(path, key.Interface().(string))"),
-  ("evaluateCollectionExpression", "innerOpt",
-      "append(innerOpt, WithLocalVariable(expression.NameBinding.Value, path, nil))"),
-  ("evaluateCollectionExpression", "innerOpt",
-      "append(innerOpt, WithLocalVariable(expression.NameBinding.Default, nil, key.Interface()))"),
-  ("evaluateCollectionExpression", "innerOpt",
-      "append(innerOpt, WithLocalVariable(expression.NameBinding.Index, nil, key.Interface()))"),
-  ("evaluateCollectionExpression", "pathValue", "make([]string, 0, len(expression.Selector.Path)+1)"),
-  ("evaluateCollectionExpression", "pathValue", "append(pathValue, expression.Selector.Path...)"),
-  ("evaluateCollectionExpression", "pathValue", "append(pathValue, fmt.Sprintf(\"%d\", i))"),
-  ("evaluateCollectionExpression", "innerOpt",
-      "append(innerOpt, WithLocalVariable(expression.NameBinding.Default, pathValue, nil))"),
-  ("evaluateCollectionExpression", "innerOpt",
-      "append(innerOpt, WithLocalVariable(expression.NameBinding.Value, pathValue, nil))"),
-  ("evaluateCollectionExpression", "innerOpt",
-      "append(innerOpt, WithLocalVariable(expression.NameBinding.Index, nil, i))"),
-  ("getValue", "prefix", "append([]string(nil), lv.path...)")
-]
+/-- an origin of an appended-to local: (function, variable, class, source text) -/
+abbrev Origin := String × String × String × String
 
-def isLocalSite (s : String × String × String) : Bool := localSites.any (·.1 == s)
+/-- kinds of store sites that can be call-local at all; everything else (`assign-global`,
+    `assign-deref`, `assign-param-slice`, `go`, `chan`, `sync`, unknown kinds) never is -/
+def localKinds : List String :=
+  ["append", "assign-field", "assign-index", "builtin-mutator", "reflect-mutator"]
+
+/-- The Option setters.  Their closures `func(o *options) { o.f = e }` write through `o`
+    (class `setter`): that is call-local because `o` points to the options struct that is a local
+    variable of `getOpts` — `opts := getDefaultOptions(); …; o(&opts)` is the only place an Option
+    is applied, pinned by `Ties.Options.getOpts_shape`.  `WithLocalVariable` also appends to
+    `o.withLocalVariables`: that slice starts nil (`Ties.Options.defaults_agree`) and is only ever
+    assigned an append to itself (`Ties.Options.setters_own_field`), so its backing array was
+    allocated by an earlier setter applied to the same call-local struct. -/
+def optionSetters : List String :=
+  ["WithMaxExpressions", "WithTagName", "WithHookFn", "WithUnknownValue", "WithLocalVariable"]
+
+/-- The functions that may assign a field of a by-value parameter of a named type (class
+    `param-field`): `evaluateNotPresent(ptr pointerstructure.Pointer, …)` re-slices `ptr.Parts`;
+    `pointerstructure.Pointer` is a struct, so that writes the slice header of the callee's own
+    copy only. -/
+def valueParamWriters : List String := ["evaluateNotPresent"]
+
+/-- Is the store site call-local?
+    * `local`: the written memory is held by a fresh local variable — one whose every value is a
+      fresh allocation of the same call (`make`, a composite literal, `new`, `nil`, `reflect.MakeSlice`
+      / `MakeMap` / `New`, or an append to such a value), reached in at most one selector / index
+      step;
+    * `setter`, `param-field`: see `optionSetters`, `valueParamWriters`. -/
+def isLocalSite (s : Site) : Bool :=
+  let (fn, kind, cls, _) := s
+  localKinds.contains kind &&
+    (cls == "local" || (cls == "setter" && optionSetters.contains fn) ||
+     (cls == "param-field" && kind == "assign-field" && valueParamWriters.contains fn))
+
+/-- every value an appended-to local slice of an Evaluate-reachable function receives must be a
+    fresh allocation, or a previous append to the same (already fresh) variable -/
+def isFreshOrigin (o : Origin) : Bool := o.2.2.1 == "fresh"
 
 /-! ### The logic part: steps that do not write shared state commute with everything -/
 
